@@ -186,6 +186,15 @@ func runC06(c *Ctx) {
 		if c.F.Chance(2) {
 			shortAt = c.F.Draw(5)
 		}
+		// one bare member in three runs is a terminal behind stdout: it takes
+		// every byte and answers every Sync with ENOTTY or EINVAL; the Sync of
+		// the group must go on reaching the other members all the same
+		ttyAt := -1
+		if c.F.Chance(3) {
+			if ttyAt = c.F.Draw(5); ttyAt == shortAt {
+				ttyAt = -1
+			}
+		}
 		for i := 0; i < 5+g.Draw(3); i++ {
 			lf := &c06leaf{sink: zsim.NewSimSink(r, fmt.Sprintf("disk%d", i), 1, uint64(g.Draw(1<<16))+1), level: lvl}
 			r.Label(unsafe.Pointer(lf.sink), lf.sink.Name)
@@ -204,6 +213,14 @@ func runC06(c *Ctx) {
 					}
 					lf.faulty = true
 					c.Fault("short-count-without-error")
+				}
+				if i == ttyAt {
+					se := &os.PathError{Op: "sync", Path: "/dev/stdout", Err: []error{syscall.ENOTTY, syscall.EINVAL}[i%2]}
+					for j := 0; j < 64; j++ {
+						lf.sink.SyncPlan = append(lf.sink.SyncPlan, se)
+					}
+					lf.faulty, lf.syncFaultOnly = true, true
+					c.Fault("terminal-member-refuses-sync")
 				}
 			}
 			w.leaves = append(w.leaves, lf)
